@@ -351,7 +351,8 @@ impl Polynomial<Cmplx> {
     }
 
     // Laguerre's iteration from x; false if the iterations were used up and x is no root ( a cycle between
-    // neighbouring numbers at rounding level, |p( x )| within 1000 rounding errors, is convergence )
+    // neighbouring numbers at rounding level, |p( x )| within 1000 rounding errors, is convergence, and so is a
+    // normwise backward error below 1e-12 )
     fn laguer_from( a: &mut Vector::<Cmplx>, x: &mut Cmplx, iterations: &mut usize ) -> bool {
         const MR: usize = 8;
         const MT: usize = 10;
@@ -415,12 +416,17 @@ impl Polynomial<Cmplx> {
         }
         let mut b = a[m];
         let mut err = b.abs();
+        let mut amax = b.abs();
         let abx = x.abs();
         for j in (0..m).rev() {
             b = *x * b + a[j];
             err = b.abs() + abx * err;
+            amax = amax.max( a[j].abs() );
         }
-        b.abs() <= 1000.0 * EPS * err
+        // ( the second test is for a multiple root at 0: with a_0 = a_1 = 0 the rounding level of Horner's rule is |x|^2
+        // itself, which |p( x )| never undercuts, although x -> 0 steadily - restarting from there lost the double root
+        // of x^3 + x^2 )
+        b.abs() <= 1000.0 * EPS * err || b.abs() <= 1.0e-12 * amax * abx.max( 1.0 ).powi( m as i32 )
     }
 }
 
